@@ -18,7 +18,7 @@ RULE = ("Cases: C01's generators for JSON-like documents, nested lists, plist-wr
         "both mappings some sub-edit pairs exactly those two items; list edits off (or off-when-same-length with equal "
         "lengths) => sub-edit i pairs element i with element i for i < min(len), followed only by removes (resp. "
         "inserts) of the surplus tail in order. XML child lists and CSV rows are built without list options and are "
-        "outside the list-option domain. Non-trivial: a mapping edit with both a shared and an unshared key, or a "
+        "outside the list-option domain. For JSON documents every command-line spelling of the options (-k, --no-key-edits, --dict-strategy X, -l, -ll, long forms) must give the edit list the library gives under the equivalent options. Non-trivial: a mapping edit with both a shared and an unshared key, or a "
         "positional list edit with a surplus tail. Distinct by case hash.")
 ASSUMPTIONS = [
     "list options are only claimed for lists built by json.build_tree or the Builder framework (JSON/JSON5/YAML/plist/pickle/Python-object inputs); XML child lists and CSV rows ignore them by construction",
@@ -34,7 +34,7 @@ valid = gen.valid_case
 
 def jobs(tier):
     if tier == 'quick':
-        plan = [('json', 10, 4, 260), ('nested', 0, 0, 60), ('xml', 5, 0, 40), ('plist', 8, 0, 30), ('builder', 10, 4, 120)]
+        plan = [('json', 10, 4, 260), ('nested', 0, 0, 60), ('xml', 5, 0, 120), ('plist', 8, 0, 30), ('builder', 10, 4, 120)]
     else:
         plan = [('json', 25, 7, 6000), ('nested', 0, 0, 1200), ('xml', 8, 0, 1000), ('plist', 12, 0, 600), ('builder', 20, 6, 2500)]
     js = []
@@ -111,6 +111,40 @@ def check_list(r, le, out, stats):
                 return
 
 
+SPELLINGS = {
+    ('ds', 'none'): [['-k'], ['--no-key-edits'], ['--dict-strategy', 'none'], ['-ds', 'none']],
+    ('ds', 'match'): [['--dict-strategy', 'match']],
+    ('ds', 'auto'): [[], ['--dict-strategy', 'auto']],
+    ('le', 'off'): [['-l'], ['--no-list-edits']],
+    ('le', 'same'): [['-ll'], ['--no-list-edits-when-same-length']],
+    ('le', 'on'): [[]],
+}
+
+
+def check_cli(case, out):
+    """Every command-line spelling of the options must select the same matching behaviour as the library options: the
+    edit list printed by --only-edits is compared with the library's get_all_edits under the equivalent BuildOptions."""
+    import json as _json
+    from .. import cli
+    ds, le = case.get('ds', 'auto'), case.get('le', 'on')
+    opts = common.build_options(ds, le)
+    pa, pb = cli.write_file(_json.dumps(gen.expand(case['a'])), 'json', name='A'), cli.write_file(_json.dumps(gen.expand(case['b'])), 'json', name='B')
+    try:
+        with guard('library get_all_edits'):
+            from graphtage import json as gjson
+            ta, tb = gjson.build_tree(gen.expand(case['a']), opts), gjson.build_tree(gen.expand(case['b']), opts)
+            want = ''.join(str(e) + '\n' for e in ta.get_all_edits(tb)) + '\n'
+        h = sum(map(ord, _json.dumps(case['a'])[:40]))
+        dss, les = SPELLINGS[('ds', ds)], SPELLINGS[('le', le)]
+        args = dss[h % len(dss)] + les[h % len(les)]
+        r = cli.run_main([pa, pb, '--no-status', '--no-color', '-e'] + args)
+        if r.exc is None and r.rc in (0, 1) and r.out != want:
+            out.fail('cli-option-not-honoured', f"options {args or '(defaults)'}: --only-edits prints {r.out[:160]!r}, the library with the "
+                                                f"equivalent BuildOptions (dict strategy {ds}, list edits {le}) lists {want[:160]!r}")
+    finally:
+        cli.cleanup_files(pa, pb)
+
+
 def check(case):
     out = Outcome()
     ds, le = case.get('ds', 'auto'), case.get('le', 'on')
@@ -131,6 +165,8 @@ def check(case):
         elif r.kind == 'ordered' and type(r.f) is ListNode and type(r.t) is ListNode:
             n_list += 1
             check_list(r, le, out, stats)
+    if case.get('family', 'json') == 'json' and not out.failures:
+        check_cli(case, out)
     out.nontrivial = bool(stats.get('mixed-mapping') or stats.get('positional-tail'))
     out.label('family:' + case.get('family', 'json'), 'ds:' + ds, 'le:' + le)
     for k in stats:
